@@ -11,4 +11,4 @@ mkdir -p "$ovdir"
 frag=$(python3 "$VERIF/tools/goroot-overlay/gen_map_overlay.py" "$ovdir")
 echo "{\"Replace\": $frag}" > "$ovdir/overlay.json"
 cd "$VERIF/harness"
-go build $MODFLAG -overlay "$ovdir/overlay.json" -o "$out" "./cmd/${prop}m"
+go build -trimpath $MODFLAG -overlay "$ovdir/overlay.json" -o "$out" "./cmd/${prop}m"
